@@ -60,6 +60,11 @@ theorem within_some {T : Option Nat} {T' base t : Nat} (hT : T = some T') (h : t
 theorem within_none {T : Option Nat} {base t : Nat} (hT : T = none) : within T base t = true := by
   subst hT; rfl
 
+theorem within_of_dead {T : Option Nat} {base t : Nat} (h : ∀ T', T = some T' → t ≤ base + T') : within T base t = true := by
+  cases T with
+  | none => rfl
+  | some T' => simpa [within] using h T' rfl
+
 theorem le_of_within {T : Option Nat} {T' base t : Nat} (hT : T = some T') (h : within T base t = true) : t ≤ base + T' := by
   subst hT; simpa [within] using h
 
@@ -435,5 +440,261 @@ theorem lnxPassword_sim (c : Board.Case) (l : LnxCfg) (start : Nat) (b : BS) (m 
             rw [← htmo, (hs T' hTl).2] at hT
             simp at hT
         exact accept_hang_pw c l m' _ h.cfg hph' hTl hnp hhit hctx'.lastT.symm
+
+
+/-- the body of `LinuxBootLogin._init_machine` -/
+theorem lnxLoginBody_sim (c : Board.Case) (l : LnxCfg) (start : Nat) (b : BS) (m : Mon) (h : LCtx c l start b m)
+    (hf : Fresh b m) (hph : m.ph = .login1) :
+    match lnxLoginBody l start b with
+    | (.ok _, b') => ∃ m', LCtx c l start b' m' ∧ step c m' (.lnxReady b'.st.now) = some { m' with ph := .lnxUp }
+    | (.error e, b') => ∃ m', LFail c b' m' e := by
+  unfold lnxLoginBody
+  have h1 := lnx_loginWait c l start b m h hf (Or.inl hph)
+  generalize lnxLoginWait l start b = out at h1
+  obtain ⟨r1, b1⟩ := out
+  cases r1 with
+  | error e => exact h1
+  | ok v1 =>
+    obtain ⟨m1, hc1, hp1, hh1, _⟩ := h1
+    rw [hph] at hp1
+    simp only
+    -- the optional login delay
+    have h2 : match (if l.delay = 0 then ((.ok (), b1) : R Unit) else lnxDelay l start b1) with
+        | (.ok _, b') => ∃ m', LCtx c l start b' m' ∧ ((m'.ph = .login1 ∧ l.delay = 0) ∨ m'.ph = .login2)
+            ∧ m'.hit = some b'.st.now
+        | (.error e, b') => ∃ m', LFail c b' m' e := by
+      by_cases hd : l.delay = 0
+      · rw [if_pos hd]
+        exact ⟨m1, hc1, Or.inl ⟨hp1, hd⟩, hh1⟩
+      · rw [if_neg hd]
+        have := lnxDelay_sim c l start b1 m1 hc1 hp1 hh1 hd
+        generalize lnxDelay l start b1 = out at this
+        obtain ⟨r, b'⟩ := out
+        cases r with
+        | error e => exact this
+        | ok v =>
+          obtain ⟨m', hc', hp', hh'⟩ := this
+          exact ⟨m', hc', Or.inr hp', hh'⟩
+    generalize (if l.delay = 0 then ((.ok (), b1) : R Unit) else lnxDelay l start b1) = out at h2
+    obtain ⟨r2, b2⟩ := out
+    cases r2 with
+    | error e => exact h2
+    | ok v2 =>
+      obtain ⟨m2, hc2, hp2, hh2⟩ := h2
+      simp only
+      obtain ⟨hok, hc3, hf3, hnow3⟩ := lnx_sendline c l start b2 m2 hc2 l.user hc2.ok.userLen hc2.ok.userBl
+        (if l.password.isSome then .pw else .done)
+        (step_user c l m2 _ h.cfg hp2 hh2 (by rw [hc2.mstart]; exact hc2.dl))
+      generalize wr (sendline l.user false none) b2 = out at hok hc3 hf3 hnow3
+      obtain ⟨r3, b3⟩ := out
+      simp only at hok hc3 hf3 hnow3
+      subst hok
+      simp only
+      cases hpw : l.password with
+      | none =>
+        simp only
+        refine ⟨_, hc3, ?_⟩
+        simp [step, wait, hpw, h.cfg, hnow3]
+      | some pw =>
+        simp only
+        rw [hpw] at hc3 hf3
+        exact lnxPassword_sim c l start b3 _ hc3 hf3 rfl pw hpw
+
+
+/-! ### attaching and detaching the startup event -/
+
+theorem streamOn_inv (c : Board.Case) (id : Nat) (b : BS) (m : Mon) (h : Inv c b m) : Inv c (streamOn id b) m :=
+  { mon := h.mon, calm := ⟨h.calm.wf, h.calm.chunk, h.calm.deaths, rfl⟩, accept := h.accept, slow := h.slow,
+    slice := h.slice, con := h.con, ulog := h.ulog, llog := h.llog }
+
+theorem streamExit_shown (id : Nat) (s : St) (hlp : s.logPrompt = true) :
+    streamExit id true s = { s with streams := s.streams.erase id } := by
+  cases s
+  simp only at hlp
+  subst hlp
+  simp [streamExit, exitFlush, exitKeep]
+
+theorem streamOff_inv (c : Board.Case) (id : Nat) (b : BS) (m : Mon) (h : Inv c b m) : Inv c (streamOff id b) m := by
+  unfold streamOff
+  rw [streamExit_shown id b.st h.calm.lp]
+  exact { mon := h.mon, calm := ⟨h.calm.wf, h.calm.chunk, h.calm.deaths, h.calm.lp⟩, accept := h.accept, slow := h.slow,
+          slice := h.slice, con := h.con, ulog := h.ulog, llog := h.llog }
+
+theorem streamOff_streams (id : Nat) (b : BS) (hlp : b.st.logPrompt = true) :
+    (streamOff id b).st.streams = b.st.streams.erase id := by
+  unfold streamOff
+  rw [streamExit_shown id b.st hlp]
+
+theorem streamOff_now (id : Nat) (b : BS) : (streamOff id b).st.now = b.st.now := rfl
+theorem streamOff_blacklist (id : Nat) (b : BS) : (streamOff id b).st.blacklist = b.st.blacklist := rfl
+theorem streamOff_prompt (id : Nat) (b : BS) : (streamOff id b).st.prompt = b.st.prompt := rfl
+
+/-- the Linux boot stage with no stream attached (between the initializers) -/
+structure LOut (c : Board.Case) (l : LnxCfg) (start : Nat) (b : BS) (m : Mon) : Prop where
+  inv : Inv c b m
+  cfg : c.lnx = some l
+  ok : LnxOk l b.st.blacklist
+  streams : b.st.streams = []
+  mstart : m.start = start
+  lastT : m.lastT = b.st.now
+  dl : within l.timeout start b.st.now = true
+  ublog : b.ubLog = if m.ubSet then some m.ulog else none
+  lnxSet : m.lnxSet = true
+  ge : start ≤ b.st.now
+
+theorem LOut.on {c : Board.Case} {l : LnxCfg} {start : Nat} {b : BS} {m : Mon} (h : LOut c l start b m) :
+    LCtx c l start (streamOn 2 b) m :=
+  { inv := streamOn_inv c 2 b m h.inv, cfg := h.cfg, ok := h.ok,
+    streams := by show b.st.streams ++ [2] = [2]; rw [h.streams]; rfl
+    mstart := h.mstart, lastT := h.lastT, dl := h.dl, ublog := h.ublog, lnxSet := h.lnxSet, ge := h.ge }
+
+theorem LCtx.off {c : Board.Case} {l : LnxCfg} {start : Nat} {b : BS} {m : Mon} (h : LCtx c l start b m) :
+    LOut c l start (streamOff 2 b) m :=
+  { inv := streamOff_inv c 2 b m h.inv, cfg := h.cfg, ok := h.ok,
+    streams := by rw [streamOff_streams 2 b h.inv.calm.lp, h.streams]; rfl
+    mstart := h.mstart, lastT := h.lastT, dl := h.dl, ublog := h.ublog, lnxSet := h.lnxSet, ge := h.ge }
+
+/-- bring-up has ended with `e` in a state the monitor accepts; the bootlogs are what it computed -/
+structure Final (c : Board.Case) (b : BS) (m : Mon) (e : Option Exc) : Prop where
+  mon : steps c {} b.evs = some m
+  acc : accept c m b.st.now e = true
+  ublog : b.ubLog = if m.ubSet then some m.ulog else none
+  lnxlog : b.lnxLog = if m.lnxSet then some m.llog else none
+
+theorem LFail.final {c : Board.Case} {b : BS} {m : Mon} {e : Exc} (h : LFail c b m e) :
+    Final c (closeLnx (streamOff 2 b)) m (some e) :=
+  { mon := h.inv.mon, acc := h.acc, ublog := h.ublog
+    lnxlog := by
+      rw [h.lnxSet]
+      show some (logOf 2 (streamOff 2 b).st.fwd) = some m.llog
+      rw [(streamOff_inv c 2 b m h.inv).llog] }
+
+/-- `LinuxBootLogin._init_machine` -/
+theorem lnxLogin_sim (c : Board.Case) (l : LnxCfg) (start : Nat) (b : BS) (m : Mon) (h : LOut c l start b m)
+    (hf : Fresh b m) (hph : m.ph = .login1) (s? : Option Nat) (hs : s?.getD b.st.now = start) :
+    match lnxLogin l s? b with
+    | (.ok _, b') => ∃ m', steps c {} b'.evs = some m'
+        ∧ step c m' (.lnxReady b'.st.now) = some { m' with ph := .lnxUp } ∧ m'.lastT = b'.st.now
+        ∧ b'.ubLog = (if m'.ubSet then some m'.ulog else none)
+        ∧ b'.lnxLog = (if m'.lnxSet then some m'.llog else none)
+    | (.error e, b') => ∃ m', Final c b' m' (some e) := by
+  unfold lnxLogin
+  simp only
+  have hs' : s?.getD (streamOn 2 b).st.now = start := hs
+  rw [hs']
+  have := lnxLoginBody_sim c l start (streamOn 2 b) m h.on ⟨hf.acc, hf.hit, hf.t0⟩ hph
+  generalize lnxLoginBody l start (streamOn 2 b) = out at this
+  obtain ⟨r, b'⟩ := out
+  cases r with
+  | error e =>
+    obtain ⟨m', hfail⟩ := this
+    exact ⟨m', hfail.final⟩
+  | ok v =>
+    obtain ⟨m', hc', hstep⟩ := this
+    have hout := hc'.off
+    refine ⟨m', hc'.inv.mon, hstep, hc'.lastT, hc'.ublog, ?_⟩
+    · show some (logOf 2 (streamOff 2 b').st.fwd) = (if m'.lnxSet then some m'.llog else none)
+      rw [hc'.lnxSet, hout.inv.llog]
+      rfl
+
+
+/-- `AskfirstInitializer._init_machine`, at the beginning of the Linux boot stage -/
+theorem lnxAskfirst_sim (c : Board.Case) (l : LnxCfg) (start : Nat) (b : BS) (m : Mon) (h : LOut c l start b m)
+    (hf : Fresh b m) (hph : m.ph = .ask) (hst : start = b.st.now) (banner : Bytes) (hask : l.askfirst = some banner) :
+    match lnxAskfirst l banner b with
+    | (.ok s, b') => s = start ∧ ∃ m', LOut c l start b' m' ∧ Fresh b' m' ∧ m'.ph = .login1
+    | (.error e, b') => ∃ m', Final c b' m' (some e) := by
+  unfold lnxAskfirst
+  simp only
+  have hc := h.on
+  have hf0 : Fresh (streamOn 2 b) m := ⟨hf.acc, hf.hit, hf.t0⟩
+  have hstr : (streamOn 2 b).st.streams = streamsOf m.ph := by rw [hc.streams, hph]; rfl
+  have haw : awaited c m.ph = fun buf => (firstMatch buf 0 [.lit banner]).isSome := by
+    rw [hph]; funext buf; simp [awaited, h.cfg, hask]
+  obtain ⟨m1, hinv1, hw⟩ := sim_expect c (streamOn 2 b) m hc.inv [.lit banner] l.timeout (by rw [hph]; rfl) haw hc.lastT
+    hstr hf.acc hf.hit
+  have hnow0 : (streamOn 2 b).st.now = b.st.now := rfl
+  have hc1 : LCtx c l start (rd (expect [.lit banner] l.timeout) (streamOn 2 b)).2 m1 := by
+    refine ⟨hinv1, h.cfg, ?_, ?_, ?_, hw.sim.lastT, ?_, ?_, ?_, Nat.le_trans hc.ge hw.sim.mono⟩
+    · rw [hw.sim.blacklist]; exact hc.ok
+    · rw [hw.sim.streams]; exact hc.streams
+    · rw [hw.sim.start]; exact hc.mstart
+    · refine within_of_dead fun T' hT => ?_
+      have := hw.dead T' hT
+      rw [hnow0] at this
+      omega
+    · rw [hw.sim.ubLog, hw.sim.ubSet, hw.sim.ulog (by rw [hph]; decide)]; exact hc.ublog
+    · rw [hw.sim.lnxSet]; exact hc.lnxSet
+  generalize rd (expect [.lit banner] l.timeout) (streamOn 2 b) = out at hc1 hw
+  obtain ⟨r, b1⟩ := out
+  have hph1 : m1.ph = .ask := by rw [hw.sim.ph]; exact hph
+  cases r with
+  | error e =>
+    dsimp only
+    refine ⟨m1, (hc1.fail ?_).final⟩
+    obtain ⟨hhit, hk⟩ := hw.bad e rfl
+    rcases hk with ⟨rfl, T, hT, _⟩ | ⟨rfl, hT⟩
+    · exact accept_tmo_wait c l m1 _ h.cfg (Or.inl hph1) T hT
+        (by rw [hc1.mstart]; exact le_of_within hT hc1.dl) hhit
+    · exact accept_hang_wait c l m1 _ h.cfg (Or.inl hph1) hT hhit hc1.lastT.symm
+  | ok v =>
+    have hhit := hw.ok rfl
+    have hc1 : LCtx c l start b1 m1 := hc1
+    obtain ⟨hok, hc2, hf2, hnow2⟩ := lnx_sendline c l start b1 m1 hc1 [] (by decide) hc1.ok.crBl .login1
+      (step_ask c l m1 _ h.cfg hph1 hhit (by rw [hc1.mstart]; exact hc1.dl))
+    dsimp only
+    generalize wr (sendline [] false none) b1 = out at hok hc2 hf2 hnow2
+    obtain ⟨r2, b2⟩ := out
+    simp only at hok hc2 hf2 hnow2
+    subst hok
+    dsimp only
+    exact ⟨hst.symm, _, hc2.off, ⟨hf2.acc, hf2.hit, hf2.t0⟩, rfl⟩
+
+/-- the initializers and `init()` of the Linux machine, from the moment the boot stage begins -/
+theorem lnxUp_sim (c : Board.Case) (l : LnxCfg) (b : BS) (m : Mon) (h : LOut c l b.st.now b m)
+    (hf : Fresh b m) (hph : m.ph = if l.askfirst.isSome then .ask else .login1) :
+    ∃ m', Final c (lnxUp l b).2 m' (errOf (lnxUp l b).1) := by
+  unfold lnxUp
+  -- after the optional askfirst stage
+  have h1 : match lnxAskStage l b with
+      | (.ok s?, b') => s?.getD b'.st.now = b.st.now ∧ ∃ m', LOut c l b.st.now b' m' ∧ Fresh b' m' ∧ m'.ph = .login1
+      | (.error e, b') => ∃ m', Final c b' m' (some e) := by
+    unfold lnxAskStage
+    cases hask : l.askfirst with
+    | none =>
+      rw [hask] at hph
+      exact ⟨rfl, m, h, hf, hph⟩
+    | some banner =>
+      rw [hask] at hph
+      have := lnxAskfirst_sim c l b.st.now b m h hf hph rfl banner hask
+      simp only
+      generalize lnxAskfirst l banner b = out at this
+      obtain ⟨r, b'⟩ := out
+      cases r with
+      | error e => exact this
+      | ok s =>
+        obtain ⟨hs, m', h1, h2, h3⟩ := this
+        exact ⟨by rw [hs]; rfl, m', h1, h2, h3⟩
+  generalize lnxAskStage l b = out at h1
+  obtain ⟨r1, b1⟩ := out
+  cases r1 with
+  | error e => exact h1
+  | ok s? =>
+    obtain ⟨hs, m1, hout1, hf1, hph1⟩ := h1
+    dsimp only
+    have := lnxLogin_sim c l b.st.now b1 m1 hout1 hf1 hph1 s? hs
+    generalize lnxLogin l s? b1 = out at this
+    obtain ⟨r2, b2⟩ := out
+    cases r2 with
+    | error e => exact this
+    | ok v =>
+      obtain ⟨m2, hmon, hstep, hlast, hul, hll⟩ := this
+      refine ⟨{ m2 with ph := .lnxUp }, ?_, ?_, hul, hll⟩
+      · show steps c {} (b2.evs ++ [.lnxReady b2.st.now]) = _
+        rw [steps_append, hmon]
+        simp only [Option.bind, steps, hstep]
+      · show accept c { m2 with ph := .lnxUp } b2.st.now none = true
+        simp [accept, hout1.cfg, hlast]
+        rfl
 
 end Board
